@@ -98,7 +98,11 @@ fn timeout_error() -> String {
 
 /// One grid point: returns (observation summary, violations as (sub, message)).
 async fn timeout_case(c: Option<u64>, ok: bool, d: u64, p: u64, token: u32) -> (serde_json::Value, String, Vec<(String, String)>) {
-    timeout_case_dur(c, ok, Duration::from_millis(d * UNIT_MS), p, token).await
+    timeout_case_lag(c, ok, Duration::from_millis(d * UNIT_MS), p, None, token).await
+}
+
+async fn timeout_case_dur(c: Option<u64>, ok: bool, dur: Duration, p: u64, token: u32) -> (serde_json::Value, String, Vec<(String, String)>) {
+    timeout_case_lag(c, ok, dur, p, None, token).await
 }
 
 /// Durations far beyond any horizon ("effectively no timeout" as callers write it).
@@ -115,7 +119,8 @@ fn huge_durations() -> Vec<(&'static str, Duration)> {
     ]
 }
 
-async fn timeout_case_dur(c: Option<u64>, ok: bool, dur: Duration, p: u64, token: u32) -> (serde_json::Value, String, Vec<(String, String)>) {
+/// `lag`: after its first poll (at t=p) the caller is busy and polls again only at t=lag, whatever woke it.
+async fn timeout_case_lag(c: Option<u64>, ok: bool, dur: Duration, p: u64, lag: Option<u64>, token: u32) -> (serde_json::Value, String, Vec<(String, String)>) {
     let d: u64 = u64::try_from(dur.as_millis() / UNIT_MS as u128).unwrap_or(u64::MAX);
     let base = tokio::time::Instant::now();
     let log = Rc::new(RefCell::new(Log::default()));
@@ -132,13 +137,29 @@ async fn timeout_case_dur(c: Option<u64>, ok: bool, dur: Duration, p: u64, token
     tokio::time::sleep(Duration::from_millis(p * UNIT_MS)).await; // caller polls first at t=p
     let horizon = tokio::time::timeout(Duration::from_millis(100 * UNIT_MS), fut);
     let mut horizon = Box::pin(horizon);
-    let r = std::panic::AssertUnwindSafe(&mut horizon).catch_unwind().await;
+    let mut early = None;
+    if let Some(l) = lag {
+        // one poll now, then nothing until t = l
+        match std::panic::catch_unwind(std::panic::AssertUnwindSafe(|| futures_util::FutureExt::now_or_never(&mut horizon))) {
+            Ok(None) => tokio::time::sleep_until(base + Duration::from_millis(l * UNIT_MS)).await,
+            Ok(Some(r)) => early = Some(Ok(r)),
+            Err(p) => early = Some(Err(p)),
+        }
+    }
+    let r = match early {
+        Some(x) => x,
+        None => std::panic::AssertUnwindSafe(&mut horizon).catch_unwind().await,
+    };
     let t_r = now_units(base);
     log.borrow_mut().result_seen = true;
     tokio::task::yield_now().await;
     drop(horizon); // the caller drops the finished future
     let l = log.borrow().clone();
-    let see = d.max(p); // first poll that can see the deadline
+    // first poll that can see the deadline
+    let see = match lag {
+        Some(l) if p < d => d.max(l),
+        _ => d.max(p),
+    };
     let outcome = match &r {
         Err(_) => "panic".to_string(),
         Ok(Err(_)) => "hang".to_string(),
@@ -164,7 +185,7 @@ async fn timeout_case_dur(c: Option<u64>, ok: bool, dur: Duration, p: u64, token
     if outcome == inner_expected {
         if !inner_allowed {
             fail("inner result returned although it had not resolved");
-        } else if t_r != c.unwrap().max(p) {
+        } else if t_r != match lag { Some(l) if c.unwrap() > p => c.unwrap().max(l), _ => c.unwrap().max(p) } {
             fail("inner result returned late");
         }
     } else if outcome == "err:TIMEOUT" {
@@ -208,8 +229,9 @@ fn replay(path: &str) -> i32 {
         Some(name) => huge_durations().into_iter().find(|(n, _)| *n == name).map(|(_, d)| d).unwrap_or(Duration::MAX),
         None => Duration::from_millis(d * UNIT_MS),
     };
-    let (o1, _, v1) = rt.block_on(timeout_case_dur(c, ok, dur, p, 7));
-    let (o2, _, v2) = rt.block_on(timeout_case_dur(c, ok, dur, p, 7));
+    let lag = rp.get("lag").and_then(|x| x.as_u64());
+    let (o1, _, v1) = rt.block_on(timeout_case_lag(c, ok, dur, p, lag, 7));
+    let (o2, _, v2) = rt.block_on(timeout_case_lag(c, ok, dur, p, lag, 7));
     if o1 != o2 || v1 != v2 {
         println!("MACHINERY-ERROR replay diverged");
         return 2;
@@ -252,6 +274,14 @@ pub fn run(args: &Args) -> i32 {
                         }
                         for (what, msg) in viols {
                             run.violation(case_sig(c, d, p, &what), msg, json!({"engine":"c19","complete_at":c,"ok":ok,"duration":d,"first_poll":p}));
+                        }
+                    }
+                    // a caller that polls once at t=0 and is then busy until just after the deadline
+                    {
+                        evaluations += 1;
+                        let (_, _, viols) = timeout_case_lag(c, ok, Duration::from_millis(d * UNIT_MS), 0, Some(d + 1), 5000 + evaluations as u32).await;
+                        for (what, msg) in viols {
+                            run.violation(format!("{} caller-lags", case_sig(c, d, 0, &what)), format!("{msg}; the caller polled at t=0 and then not again before t={}", d + 1), json!({"engine":"c19","complete_at":c,"ok":ok,"duration":d,"first_poll":0,"lag":d + 1}));
                         }
                     }
                 }
